@@ -425,6 +425,10 @@ func (w *walker) stmt(s ast.Stmt, h held) held {
 		}
 		for _, l := range x.Lhs {
 			w.expr(l, h, ctxWrite)
+			// *p = T{...} / *p = v overwrites every field of the pointed-to struct
+			if st, ok := ast.Unparen(l).(*ast.StarExpr); ok {
+				w.wholeStructWrite(st, h)
+			}
 		}
 		return h
 	case *ast.IncDecStmt:
@@ -1793,4 +1797,36 @@ func exportedAPI(f *types.Func) bool {
 		return nt.Obj().Exported()
 	}
 	return true
+}
+
+// wholeStructWrite records a write of every field for an assignment through a struct pointer
+func (w *walker) wholeStructWrite(st *ast.StarExpr, h held) {
+	tv, ok := w.info.Types[st.X]
+	if !ok {
+		return
+	}
+	pt, ok := tv.Type.Underlying().(*types.Pointer)
+	if !ok {
+		return
+	}
+	nt, ok := pt.Elem().(*types.Named)
+	if !ok {
+		return
+	}
+	str, ok := nt.Underlying().(*types.Struct)
+	if !ok || !inScope(nt.Obj().Pkg()) {
+		return
+	}
+	phase := "PRun"
+	if root := rootIdent(st.X); root != nil {
+		if rv, ok := w.info.Uses[root].(*types.Var); ok {
+			if pub, ok := w.fresh[rv]; ok && st.Pos() < pub {
+				phase = "PInit"
+			}
+		}
+	}
+	base := exprPath(st.X)
+	for i := 0; i < str.NumFields(); i++ {
+		w.addSite(str.Field(i), st.Pos(), "KWr", phase, h, base, "*"+base+" = ... ("+str.Field(i).Name()+")")
+	}
 }
